@@ -3,13 +3,13 @@ SPECIFICATION MCSimSpec
 CONSTANTS
   Trunk = 8
   MaxBlocks = 6
-  Diffs = {1, 2, 3}
+  Diffs = {1, 2}
   Pool <- Pool5
   PoolVal <- PoolVal5
   Maturity = 3
   Flags = {}
   MaxDeliveries = 13
   HeadersFirst = FALSE
-  SimProfile = "locks"
+  SimProfile = "nrd"
   TxShapes = "nrd"
 INVARIANTS Emit
